@@ -1106,4 +1106,289 @@ theorem Rep.remove {s : LDb} {A B : AL} {t lt : Nat} (h : Rep s (A ++ (t, lt) ::
       · subst hjl; simp only [if_true]; omega
       · rw [if_neg hjl, if_neg (Ne.symm hjl)]; omega
 
+/-! ### the property as stated on the stored links -/
+
+/-- **The link clause of C06 for one database**, stated on the stored fields only. -/
+structure LinkInv (s : LDb) : Prop where
+  blk_ne : s.blk ≠ 0
+  /-- block numbers are unique -/
+  heap_nodup : (s.heap.map (·.id)).Nodup
+  /-- a node is not block 0 nor the database block, its level is below `SLEVELS`, it stores links `0..lvl` -/
+  node_ok : ∀ nd ∈ s.heap, nd.id ≠ 0 ∧ nd.id ≠ s.blk ∧ nd.lvl < SLEVELS ∧ nd.n.length = nd.lvl + 1
+  hn_len : s.hn.length = SLEVELS
+  lcnt_len : s.lcnt.length = SLEVELS
+  /-- the level-0 chain visits every node exactly once -/
+  order_perm : (order s).Perm (s.heap.map (·.id))
+  /-- for every level `i`, following `n[i]` from the head yields exactly the nodes of level `≥ i` in level-0
+      order, and the last of them has a 0 link -/
+  level : ∀ i, i < SLEVELS → chainAt s i = (order s).filter (fun x => i ≤ lvlOf s x) ∧
+    ∀ x, (chainAt s i).getLast? = some x → link s x i = 0
+  /-- `p0` of every node is its level-0 predecessor, the database block for the first -/
+  back : ∀ p ∈ (order s).zip (s.blk :: order s), p0Of s p.1 = p.2
+  /-- the tail link is the last node; of an empty chain it is the database block (or 0 before the first insertion) -/
+  tail : s.tail = (order s).getLast?.getD s.blk ∨ (order s = [] ∧ s.tail = 0)
+  /-- `lcnt[i]` = number of nodes whose level is `i` -/
+  counts : ∀ i, i < SLEVELS → s.lcnt.getD i 0 = ((order s).filter (fun x => lvlOf s x = i)).length
+  /-- the head level (`_sblk_at2`) is the highest populated level -/
+  head : headLvl s = (levels s).foldr max 0
+
+theorem find_of_nodup (l : List LNode) (hnd : (l.map (·.id)).Nodup) (nd : LNode) (h : nd ∈ l) :
+    l.find? (fun a => a.id = nd.id) = some nd := by
+  induction l with
+  | nil => simp at h
+  | cons a r ih =>
+    simp only [List.map_cons, List.nodup_cons] at hnd
+    by_cases ha : a.id = nd.id
+    · rcases List.mem_cons.1 h with rfl | hr
+      · simp
+      · exfalso; apply hnd.1; rw [ha]; exact List.mem_map.2 ⟨nd, hr, rfl⟩
+    · have hne : nd ≠ a := fun e => ha (e ▸ rfl)
+      rcases List.mem_cons.1 h with e | hr
+      · exact absurd e hne
+      · simp only [List.find?_cons, ha, decide_false]
+        exact ih hnd.2 hr
+
+theorem node?_of_mem {s : LDb} (hnd : (s.heap.map (·.id)).Nodup) {nd : LNode} (h : nd ∈ s.heap) : node? s nd.id = some nd :=
+  find_of_nodup s.heap hnd nd h
+
+theorem zip_pred (S : AL) (d : Nat) (p : Nat × Nat) (hp : p ∈ (ids S).zip (d :: ids S)) :
+    ∃ pre x l post, S = pre ++ (x, l) :: post ∧ p = (x, lastId d pre) := by
+  induction S generalizing d with
+  | nil => simp [ids] at hp
+  | cons q r ih =>
+    obtain ⟨y, ly⟩ := q
+    simp only [ids_cons, List.zip_cons_cons, List.mem_cons] at hp
+    rcases hp with rfl | hp
+    · exact ⟨[], y, ly, r, rfl, rfl⟩
+    · obtain ⟨pre, x, l, post, h1, h2⟩ := ih y hp
+      exact ⟨(y, ly) :: pre, x, l, post, by rw [h1]; rfl, by rw [h2]; rfl⟩
+
+theorem zip_mem (pre post : AL) (x l d : Nat) :
+    (x, lastId d pre) ∈ (ids (pre ++ (x, l) :: post)).zip (d :: ids (pre ++ (x, l) :: post)) := by
+  induction pre generalizing d with
+  | nil => simp [ids, lastId]
+  | cons q r ih =>
+    obtain ⟨y, ly⟩ := q
+    simp only [List.cons_append, ids_cons, List.zip_cons_cons, List.mem_cons, lastId]
+    right; exact ih y
+
+theorem Rep.filter_ids {s : LDb} {L : AL} (h : Rep s L) (q : Nat → Bool) :
+    (ids L).filter (fun x => q (lvlOf s x)) = ids (L.filter fun p => q p.2) := by
+  simp only [ids, List.filter_map]
+  congr 1
+  apply List.filter_congr
+  intro p hp
+  obtain ⟨pre, post, hs⟩ := mem_split hp
+  simp only [Function.comp, h.lvlOf_eq (x := p.1) (l := p.2) hs]
+
+/-- (A) the threading of a list satisfies the link clause -/
+theorem Rep.linkInv {s : LDb} {L : AL} (h : Rep s L) : LinkInv s := by
+  have hord := h.order_eq
+  refine ⟨h.blk_ne, h.heap_nodup, ?_, by simp [h.hn], by simp [h.lcnt], ?_, ?_, ?_, ?_, ?_, ?_⟩
+  · intro nd hnd
+    obtain ⟨l, hm⟩ := mem_ids.1 (h.heap_ids nd hnd)
+    obtain ⟨pre, post, hs⟩ := mem_split hm
+    have h1 := h.node pre nd.id l post hs
+    rw [node?_of_mem h.heap_nodup hnd] at h1
+    have h2 := h.ne_blk hs
+    simp only [Option.some.injEq] at h1
+    rw [h1]
+    simp [canonNode, h2.1, h2.2.1, h2.2.2]
+  · rw [hord]
+    apply (List.perm_ext_iff_of_nodup h.nodup h.heap_nodup).2
+    intro a
+    constructor
+    · intro ha
+      obtain ⟨l, hm⟩ := mem_ids.1 ha
+      obtain ⟨pre, post, hs⟩ := mem_split hm
+      have := node?_mem (h.node pre a l post hs)
+      exact List.mem_map.2 ⟨_, this.1, this.2⟩
+    · intro ha
+      obtain ⟨nd, hnd, rfl⟩ := List.mem_map.1 ha
+      exact h.heap_ids nd hnd
+  · intro i _
+    constructor
+    · rw [h.chainAt_eq, hord, h.filter_ids (fun l => decide (i ≤ l))]
+    · intro x hx
+      rw [h.chainAt_eq] at hx
+      have hlow : lowerAt i s.blk L = x := by rw [lowerAt_eq_last, hx]; rfl
+      have hh : hasLvl i L = true := by
+        cases hc : hasLvl i L with
+        | true => rfl
+        | false =>
+          have : L.filter (fun p => decide (i ≤ p.2)) = [] := by
+            apply List.filter_eq_nil_iff.2
+            intro p hp
+            simp only [hasLvl, List.any_eq_false] at hc
+            exact hc p hp
+          rw [this] at hx; simp [ids] at hx
+      obtain ⟨P, l, A2, h1, h2, h3⟩ := lowerAt_split i s.blk L hh
+      rw [hlow] at h1
+      rw [h.link_node h1 i, if_pos h2, nextAt_none i A2 h3]
+  · intro p hp
+    rw [hord] at hp
+    obtain ⟨pre, x, l, post, h1, rfl⟩ := zip_pred L s.blk p hp
+    exact h.p0Of_eq h1
+  · rw [hord]
+    rcases h.tail with ht | ⟨h1, h2⟩
+    · left; rw [ht, lastId_getLast]
+    · right; exact ⟨by rw [h1]; rfl, h2⟩
+  · intro i hi
+    rw [h.lcnt, getD_map_range', if_pos hi, hord, h.filter_ids (fun l => decide (l = i))]
+    simp [cnt, ids]
+  · rw [h.headLvl_eq, h.levels_eq]; rfl
+
+/-- the abstract list read off the links -/
+def absList (s : LDb) : AL := (order s).map fun x => (x, lvlOf s x)
+
+theorem ids_map_lvl (s : LDb) (o : List Nat) : ids (o.map fun x => (x, lvlOf s x)) = o := by
+  induction o with
+  | nil => rfl
+  | cons a r ih => simp only [List.map_cons, ids_cons, ih]
+
+theorem ids_map_filter (s : LDb) (o : List Nat) (q : Nat → Bool) :
+    ids ((o.map fun x => (x, lvlOf s x)).filter fun p => q p.2) = o.filter fun y => q (lvlOf s y) := by
+  induction o with
+  | nil => rfl
+  | cons a r ih =>
+    simp only [List.map_cons, List.filter_cons]
+    cases q (lvlOf s a) with
+    | true => simp only [if_true, ids_cons, ih]
+    | false => simp only [Bool.false_eq_true, if_false, ih]
+
+theorem ids_absList (s : LDb) : ids (absList s) = order s := ids_map_lvl s _
+
+theorem follow_link (s : LDb) (i : Nat) : ∀ (a : List Nat) (fuel start x y : Nat) (b : List Nat),
+    follow s i fuel start = a ++ x :: y :: b → link s x i = y := by
+  intro a
+  induction a with
+  | nil =>
+    intro fuel start x y b h
+    cases fuel with
+    | zero => simp [follow] at h
+    | succ f =>
+      simp only [follow] at h
+      split at h
+      · simp at h
+      · simp only [List.nil_append, List.cons.injEq] at h
+        obtain ⟨rfl, h2⟩ := h
+        cases f with
+        | zero => simp [follow] at h2
+        | succ f' =>
+          simp only [follow] at h2
+          split at h2
+          · simp at h2
+          · simp only [List.cons.injEq] at h2; exact h2.1
+  | cons a0 a' ih =>
+    intro fuel start x y b h
+    cases fuel with
+    | zero => simp [follow] at h
+    | succ f =>
+      simp only [follow] at h
+      split at h
+      · simp at h
+      · simp only [List.cons_append, List.cons.injEq] at h
+        exact ih f _ x y b h.2
+
+theorem follow_head (s : LDb) (i f z : Nat) : (follow s i (f + 1) z).head?.getD 0 = z := by
+  simp only [follow]
+  split
+  · rename_i h; simp [h]
+  · simp
+
+theorem map_split {α β : Type} (g : α → β) (o : List α) (pre : List β) (b : β) (post : List β)
+    (h : o.map g = pre ++ b :: post) : ∃ o1 a o2, o = o1 ++ a :: o2 ∧ o1.map g = pre ∧ g a = b ∧ o2.map g = post := by
+  obtain ⟨o1, o2', h1, h2, h3⟩ := List.map_eq_append_iff.1 h
+  cases o2' with
+  | nil => simp at h3
+  | cons a o2 =>
+    simp only [List.map_cons, List.cons.injEq] at h3
+    exact ⟨o1, a, o2, h1, h2, h3.1, h3.2⟩
+
+/-- (B) a state satisfying the link clause is the threading of the list read off its links -/
+theorem LinkInv.rep {s : LDb} (h : LinkInv s) : Rep s (absList s) := by
+  have hond : (order s).Nodup := (h.order_perm.nodup_iff).2 h.heap_nodup
+  have hnode : ∀ x ∈ order s, ∃ nd, nd ∈ s.heap ∧ nd.id = x ∧ node? s x = some nd := by
+    intro x hx
+    obtain ⟨nd, hnd, he⟩ := List.mem_map.1 ((h.order_perm.mem_iff).1 hx)
+    exact ⟨nd, hnd, he, he ▸ node?_of_mem h.heap_nodup hnd⟩
+  refine ⟨h.blk_ne, by rw [ids_absList]; exact hond, ?_, h.heap_nodup, ?_, ?_, ?_, ?_, ?_⟩
+  · intro p hp
+    obtain ⟨x, hx, rfl⟩ := List.mem_map.1 hp
+    obtain ⟨nd, hnd, he, hn⟩ := hnode x hx
+    have := h.node_ok nd hnd
+    simp only [lvlOf, hn]
+    rw [← he]
+    exact ⟨this.1, this.2.1, this.2.2.1⟩
+  · intro nd hnd
+    rw [ids_absList]
+    exact (h.order_perm.mem_iff).2 (List.mem_map.2 ⟨nd, hnd, rfl⟩)
+  · -- node
+    intro pre x l post hs
+    obtain ⟨o1, x', o2, ho, hpre, hx', hpost⟩ := map_split _ _ _ _ _ hs
+    simp only [Prod.mk.injEq] at hx'
+    obtain ⟨rfl, hl⟩ := hx'
+    have hxo : x' ∈ order s := by rw [ho]; simp
+    obtain ⟨nd, hnd, he, hn⟩ := hnode x' hxo
+    have hok := h.node_ok nd hnd
+    have hlv : nd.lvl = l := by rw [← hl]; simp only [lvlOf, hn]
+    have hxb : x' ≠ s.blk := he ▸ hok.2.1
+    rw [hn]
+    have hp0 : nd.p0 = lastId s.blk pre := by
+      have := h.back (x', lastId s.blk pre) (by
+        have := zip_mem pre post x' l s.blk
+        rw [← hs, ids_absList] at this
+        exact this)
+      simpa [p0Of, hn] using this
+    have hn' : nd.n = (List.range (l + 1)).map (nextAt · post) := by
+      apply ext_getD
+      · simp [hok.2.2.2, hlv]
+      · intro j hj
+        rw [hok.2.2.2, hlv] at hj
+        have hj24 : j < SLEVELS := by have := hok.2.2.1; omega
+        rw [getD_map_range', if_pos hj]
+        have hlink : link s x' j = nd.n.getD j 0 := by simp only [link, if_neg hxb, hn]
+        rw [← hlink]
+        obtain ⟨hch, hend⟩ := h.level j hj24
+        -- the chain of level j around x'
+        have hq : (decide (j ≤ lvlOf s x')) = true := by simp [hl]; omega
+        have hT : ids (post.filter fun p => decide (j ≤ p.2)) = o2.filter (fun y => decide (j ≤ lvlOf s y)) := by
+          rw [← hpost]; exact ids_map_filter s o2 (fun l => decide (j ≤ l))
+        rw [nextAt_eq_head, hT]
+        rw [ho, List.filter_append, List.filter_cons, hq, if_pos rfl] at hch
+        cases hT' : o2.filter (fun y => decide (j ≤ lvlOf s y)) with
+        | nil =>
+          rw [hT', ] at hch
+          exact hend x' (by rw [hch]; simp)
+        | cons y T' =>
+          rw [hT'] at hch
+          exact follow_link s j _ _ _ x' y T' hch
+    cases nd with
+    | mk id lvl n p0 =>
+      simp only at he hlv hp0 hn'
+      simp only [canonNode, he, hlv, hp0, hn']
+  · -- head links
+    apply ext_getD
+    · simp [h.hn_len]
+    · intro j hj
+      rw [h.hn_len] at hj
+      rw [getD_map_range', if_pos hj, nextAt_eq_head]
+      have : ids ((absList s).filter fun p => decide (j ≤ p.2)) = (order s).filter (fun y => decide (j ≤ lvlOf s y)) :=
+        ids_map_filter s (order s) (fun l => decide (j ≤ l))
+      rw [this, ← (h.level j hj).1, chainAt, follow_head]
+  · -- tail
+    rcases h.tail with ht | ⟨h1, h2⟩
+    · left; rw [ht, lastId_getLast, ids_absList]
+    · right; exact ⟨by simp [absList, h1], h2⟩
+  · -- counters
+    apply ext_getD
+    · simp [h.lcnt_len]
+    · intro j hj
+      rw [h.lcnt_len] at hj
+      rw [getD_map_range', if_pos hj, h.counts j hj, ← ids_map_filter s (order s) (fun l => decide (l = j))]
+      simp [cnt, absList, ids]
+
+theorem linkInv_iff_rep (s : LDb) : LinkInv s ↔ ∃ L, Rep s L :=
+  ⟨fun h => ⟨_, h.rep⟩, fun ⟨_, h⟩ => h.linkInv⟩
+
 end IwModel.KvLinks
